@@ -103,6 +103,7 @@ m = {
   {"name": "Clock", "path": "spec/Clock.tla", "serves_properties": ["C14"], "kind_free_text": "state machine of the timeout clock with real time, model checked (MC_Clock.tla, Clock_*.cfg); Obs_Clock.tla validates recorded clock events"},
   {"name": "Pool", "path": "spec/Pool.tla", "serves_properties": ["C11", "C12"], "kind_free_text": "state machine of the runner pool / program switch / LRU, model checked (Pool.cfg, Pool_quick.cfg); Obs_Pool.tla validates hook event traces; Gen_Hist.tla enumerates call histories"},
   {"name": "Gen_Class", "path": "spec/Gen_Class.tla", "serves_properties": ["C16"], "kind_free_text": "TLC-enumerated class vocabulary with predicted membership (forward conformance)"},
+  {"name": "Gen_Fold", "path": "spec/Gen_Fold.tla", "serves_properties": ["C16"], "kind_free_text": "TLC-enumerated two-rune ranges around every cased rune under IgnoreCase with predicted membership (forward conformance of the range case closure)"},
   {"name": "Gen_Repl", "path": "spec/Gen_Repl.tla", "serves_properties": ["C09"], "kind_free_text": "TLC-enumerated replacement strings with predicted Replace results in six contexts (forward conformance of the replacement mini-language)"},
   {"name": "Gen_Tokens", "path": "spec/Gen_Tokens.tla", "serves_properties": ["C10"], "kind_free_text": "token-string enumeration and argument-error predicate"},
   {"name": "Obs_Find", "path": "spec/Obs_Find.tla", "serves_properties": ["C01", "C15"], "kind_free_text": "trace/observation validation spec: recorded find results must be behaviours of RegexSem"},
